@@ -2,6 +2,7 @@
 package dispatch
 
 import (
+	"bytes"
 	"io"
 	"path/filepath"
 
@@ -15,6 +16,7 @@ import (
 	"github.com/uber/kraken/lib/torrent/scheduler/torrentlog"
 	"github.com/uber/kraken/lib/torrent/storage"
 	"github.com/uber/kraken/lib/torrent/storage/agentstorage"
+	"github.com/uber/kraken/lib/torrent/storage/originstorage"
 	"github.com/uber/kraken/lib/torrent/storage/piecereader"
 	verif "github.com/uber/kraken/zzverif"
 	"github.com/willf/bitset"
@@ -68,33 +70,60 @@ func verif14Piece(i int) []byte {
 }
 
 // verif14NewEnv: torrent state class 0 fresh, 1 partially complete (piece 0),
-// 2 complete.
-func verif14NewEnv(class int) *verif14Env { return verif14NewEnvBits(class, 8) }
+// 2 complete (agent torrents); verif14Origin: an origin torrent (real
+// originstorage.Torrent over the real CAStore).
+const verif14Origin = 3
+
+func verif14NewEnv(class int) *verif14Env { return verif14NewEnvBits(class, 3) }
 
 // verif14NewEnvBits: advBits is the length of the adversarial peer's handshake
 // bitfield.
 func verif14NewEnvBits(class int, advBits uint) *verif14Env {
 	root := verif.TempDir()
-	cads, err := store.NewCADownloadStore(store.CADownloadStoreConfig{
-		DownloadDir:     filepath.Join(root, "download"),
-		CacheDir:        filepath.Join(root, "cache"),
-		DownloadCleanup: store.CleanupConfig{Disabled: true},
-		CacheCleanup:    store.CleanupConfig{Disabled: true},
-	}, tally.NoopScope)
-	verif.Assert("new-store", err == nil)
 	dg, err := core.NewSHA256DigestFromHex(verif14Name)
 	verif.Assert("digest", err == nil)
+	if class == verif14Origin {
+		// the origin's CA store verifies content against the name
+		dg, err = core.NewDigester().FromBytes(verif14Blob)
+		verif.Assert("blob-digest", err == nil)
+	}
 	mi, err := core.NewMetaInfoFromBytes(dg, verif14Blob, 2)
 	verif.Assert("metainfo", err == nil)
-	verif.Assert("create-download-file", cads.CreateDownloadFile(verif14Name, mi.Length()) == nil)
-	t, err := agentstorage.NewTorrent(cads, mi)
-	verif.Assert("new-torrent", err == nil)
-	e := &verif14Env{t: t}
-	npre := []int{0, 1, 3}[class]
-	for i := 0; i < npre; i++ {
-		verif.Assert("prefill", t.WritePiece(piecereader.NewBuffer(verif14Piece(i)), i) == nil)
-		e.have[i] = true
+	e := &verif14Env{}
+	var t storage.Torrent
+	if class == verif14Origin {
+		// origin torrent: the complete blob in the origin's CA store
+		cas, err := store.NewCAStore(store.CAStoreConfig{
+			UploadDir:     filepath.Join(root, "upload"),
+			CacheDir:      filepath.Join(root, "cache"),
+			UploadCleanup: store.CleanupConfig{Disabled: true},
+			CacheCleanup:  store.CleanupConfig{Disabled: true},
+		}, tally.NoopScope)
+		verif.Assert("new-ca-store", err == nil)
+		verif.Assert("create-cache-file", cas.CreateCacheFile(dg.Hex(), bytes.NewReader(verif14Blob)) == nil)
+		ot, err := originstorage.NewTorrent(cas, mi)
+		verif.Assert("new-origin-torrent", err == nil)
+		t = ot
+		e.have = [3]bool{true, true, true}
+	} else {
+		cads, err := store.NewCADownloadStore(store.CADownloadStoreConfig{
+			DownloadDir:     filepath.Join(root, "download"),
+			CacheDir:        filepath.Join(root, "cache"),
+			DownloadCleanup: store.CleanupConfig{Disabled: true},
+			CacheCleanup:    store.CleanupConfig{Disabled: true},
+		}, tally.NoopScope)
+		verif.Assert("new-store", err == nil)
+		verif.Assert("create-download-file", cads.CreateDownloadFile(verif14Name, mi.Length()) == nil)
+		at, err := agentstorage.NewTorrent(cads, mi)
+		verif.Assert("new-torrent", err == nil)
+		t = at
+		npre := []int{0, 1, 3}[class]
+		for i := 0; i < npre; i++ {
+			verif.Assert("prefill", at.WritePiece(piecereader.NewBuffer(verif14Piece(i)), i) == nil)
+			e.have[i] = true
+		}
 	}
+	e.t = t
 	var local core.PeerID
 	local[0] = 0xEE
 	d, err := newDispatcher(Config{}, tally.NoopScope, clock.NewMock(), verif14NoNet{}, verif14Events{}, local, t,
@@ -104,9 +133,9 @@ func verif14NewEnvBits(class int, advBits uint) *verif14Env {
 		d.complete()
 	}
 	e.d = d
-	// the adversarial peer announced a bitfield of the wrong size in its
-	// handshake (longer than the torrent, no bit beyond it set: that is
-	// accepted); the second peer a well-formed one
+	// handshake bitfields: longer ones than the torrent are rejected by addPeer
+	// (a58bc7c, checked by VerifDispatchFindingLongBitfieldComplete); the
+	// adversarial peer announced advBits <= 3 bits, the second peer exactly 3
 	e.p, e.msgs = e.addPeer(0x51, advBits)
 	e.p2, e.msgs2 = e.addPeer(0x52, 3)
 	return e
@@ -219,7 +248,7 @@ func VerifDispatchAnyFields() {
 	verif14Options()
 	// index-carrying types on every torrent state class; the trivial types
 	// (bitfield, cancel, undefined) once, complete on two classes
-	nstates := verif.Bound("torrent_states", 2, 3) // 1 partial, 2 complete, (0 fresh)
+	nstates := verif.Bound("torrent_states", 1, 3) // 1 partial, 2 complete, (0 fresh)
 	c := verif.Choice("case", 4*nstates+5)
 	var ty p2p.Message_Type
 	state := 1
@@ -233,13 +262,9 @@ func VerifDispatchAnyFields() {
 			state = 2
 		}
 	}
-	advBits := uint(8)
-	if ty == p2p.Message_COMPLETE {
-		// an oversize bitfield followed by COMPLETE is the open finding F6
-		// (VerifDispatchFindingLongBitfieldComplete): here the peer's
-		// bitfield has the torrent's size
-		advBits = 3
-	}
+	// the adversarial peer's handshake bitfield has the torrent's size, or
+	// (thorough) is one bit short
+	advBits := uint(3 - verif.Choice("bitfield_short_by", verif.Bound("short_bitfield_classes", 1, 2)))
 	e := verif14NewEnvBits(state, advBits)
 	idx := verif.Int32("index")
 	// every type takes the full int32 range (negative indices were repaired
@@ -276,11 +301,7 @@ func VerifDispatchFindingNegativeIndex() {
 func VerifDispatchFindingMissingBody() {
 	verif14Options()
 	ty := verif14Type()
-	advBits := uint(8)
-	if ty == p2p.Message_COMPLETE {
-		advBits = 3 // see F6 / VerifDispatchFindingLongBitfieldComplete
-	}
-	e := verif14NewEnvBits(1+verif.Choice("torrent_state", verif.Bound("finding_states", 1, 2)), advBits)
+	e := verif14NewEnv(1 + verif.Choice("torrent_state", verif.Bound("finding_states", 1, 2)))
 	e.d.dispatch(e.p, verif14Adversarial(ty, false, 0))
 	e.afterwards()
 }
@@ -304,13 +325,38 @@ func VerifDispatchFindingOversizedBitfield() {
 }
 
 // VerifDispatchFindingLongBitfieldComplete: a peer whose handshake bitfield is
-// longer than the torrent (no bit beyond it set, so addPeer accepts it) sends
-// COMPLETE while the torrent is in progress, then its connection ends. Fires
-// on the current tree (FINDINGS.md F6).
+// longer than the torrent with no bit beyond it set. addPeer must reject it;
+// were it accepted, COMPLETE (SetAll over the padded length) followed by the
+// end of the connection indexed the per-piece counters out of range.
+// Regression check for FINDINGS.md F6 (fixed upstream by a58bc7c).
 func VerifDispatchFindingLongBitfieldComplete() {
 	verif14Options()
+	e := verif14NewEnv(1)
 	nbits := verif.IntRange("bitfield_bits", 4, 8)
-	e := verif14NewEnvBits(1, uint(nbits))
-	e.d.dispatch(e.p, verif14Adversarial(p2p.Message_COMPLETE, true, 0))
+	var pid core.PeerID
+	pid[0] = 0x53
+	msgs := &verif14Messages{recv: make(chan *conn.Message)}
+	p, err := e.d.addPeer(pid, false, bitset.New(uint(nbits)), msgs)
+	verif.Assert("longer-bitfield-rejected", err != nil)
+	if err == nil {
+		e.d.dispatch(p, verif14Adversarial(p2p.Message_COMPLETE, true, 0))
+		e.d.removePeer(p)
+	}
+	e.afterwards()
+}
+
+// VerifDispatchOriginAnyFields: the index-carrying message types with any
+// int32 index / offset / length delivered to an ORIGIN torrent (read-only
+// originstorage.Torrent): no panic, bounded allocation, blob bytes unchanged,
+// other peers still served.
+func VerifDispatchOriginAnyFields() {
+	verif14Options()
+	ty := []p2p.Message_Type{p2p.Message_PIECE_REQUEST, p2p.Message_PIECE_PAYLOAD, p2p.Message_ANNOUCE_PIECE,
+		p2p.Message_ERROR, p2p.Message_COMPLETE}[verif.Choice("type", 5)]
+	e := verif14NewEnv(verif14Origin)
+	idx := verif.Int32("index")
+	e.d.dispatch(e.p, verif14Adversarial(ty, true, idx))
+	verif.Cover("index-negative", idx < 0)
+	verif.Cover("index-beyond-torrent", idx >= 3)
 	e.afterwards()
 }
